@@ -11,11 +11,16 @@ static struct frgv_valloc frgv_a;
 /* ASSUMED: allocator = CBMC's allocation model. Blocks of node size are allocated with their node type so that CBMC keeps
  * their fields as typed values (an untyped byte block makes every field read symbolic and the depth loops unbounded). */
 unsigned long frgv_alloc_calls, frgv_free_calls;
+static struct rt_node rt_wild_object;
+#define RT_WILD (&rt_wild_object)
 void *frgv_valloc_allocate(struct frgv_valloc *this, unsigned long n)
 {
 	frgv_alloc_calls++;
 	if (n == sizeof(struct rt_entry_node)) { struct rt_entry_node *p = malloc(sizeof(struct rt_entry_node)); __CPROVER_assume(p != 0); struct rt_entry_node z = {0}; *p = z; return p; }
-	if (n == sizeof(struct rt_link_node)) { struct rt_link_node *p = malloc(sizeof(struct rt_link_node)); __CPROVER_assume(p != 0); struct rt_link_node z = {0}; *p = z; return p; }
+	if (n == sizeof(struct rt_link_node)) { struct rt_link_node *p = malloc(sizeof(struct rt_link_node)); __CPROVER_assume(p != 0); struct rt_link_node z = {0}; *p = z;
+		/* raw memory is not zero: uninitialised link slots hold a recognisable wild pointer until the tree stores into them */
+		for (int i = 0; i < 16; i++) p->links[i] = RT_WILD; p->__b0.depth = 0xdead;
+		return p; }
 	__CPROVER_assert(0, "radix tree allocates only nodes");
 	return 0;
 }
@@ -49,9 +54,97 @@ void h_rt_pfx_idx(void)
 #ifndef RT_KEYS
 #define RT_KEYS {0x0123456789ABCDEFUL, 0x8123456789ABCDEFUL, 0x0123456789ABCDEEUL}
 #endif
+
+/* ---- C10: the single writer's publication discipline, checked at every atomic access of the lowered code ------------------------
+ * Readers are lock-free: what they can observe is the sequence of states between the writer's atomic stores. The obligations are
+ *  (a) order roles: a store that makes a node or a value reachable (into _root, into a link slot of a reachable node, a mask bit of a
+ *      reachable leaf) is at least release; find() loads _root, links and mask with at least acquire;
+ *  (b) completeness at publication: the node being made reachable is fully written (no wild link slot, depth/prefix/parent set, every
+ *      masked slot holds a constructed value);
+ *  (c) monotone reachability: after EVERY store a complete find() for each key that was present when the operation began still returns
+ *      its value, and find() for any other key returns null or a constructed value stored under exactly that key;
+ *  (d) prefix and depth of a node do not change once it is reachable (checked at the end of every operation).
+ * A store that replaces a reachable subtree s by a new inner node must keep s below it ((c) catches a violation). */
+#define ACQ(o) ((o) == FRGV_MEMORY_ORDER_ACQUIRE || (o) == FRGV_MEMORY_ORDER_ACQ_REL || (o) == FRGV_MEMORY_ORDER_SEQ_CST || (o) == FRGV_MEMORY_ORDER_CONSUME)
+#define REL(o) ((o) == FRGV_MEMORY_ORDER_RELEASE || (o) == FRGV_MEMORY_ORDER_ACQ_REL || (o) == FRGV_MEMORY_ORDER_SEQ_CST)
 #define NK 3
-static const int rt_ops[] = RT_OPS;
+static struct rt *g_t; static _Bool g_hooks_on, g_in_reader;
 static unsigned long K[NK]; static int present[NK]; static int val[NK]; static struct frgv_tracked *addr[NK];
+static int g_cur_key = -1; static int g_cur_val; static _Bool pre_present[NK];
+#define MAXN 12
+static struct rt_node *g_pub[MAXN]; static int g_npub; static unsigned long g_pub_prefix[MAXN]; static unsigned g_pub_depth[MAXN];
+static _Bool is_pub(struct rt_node *n) { for (int i = 0; i < MAXN; i++) if (i < g_npub && g_pub[i] == n) return 1; return 0; }
+static void publish(struct rt_node *n)
+{
+	if (!n || is_pub(n)) return;
+	__CPROVER_assert(g_npub < MAXN, "harness: node table too small");
+	__CPROVER_assert(n != RT_WILD, "C10: a wild (never written) link slot becomes reachable");
+	g_pub_prefix[g_npub] = n->prefix; g_pub_depth[g_npub] = n->depth; g_pub[g_npub++] = n;
+	if (n->depth == 15) {
+		struct rt_entry_node *e = (struct rt_entry_node *)n;
+		__CPROVER_assert(e->mask != 0, "C10: a leaf is published with at least one value");
+		for (int i = 0; i < 16; i++) if (e->mask & (1 << i))
+			__CPROVER_assert(((struct frgv_tracked *)e->entries[i].buffer)->live == 1, "C10: every value of a leaf is constructed before the leaf becomes reachable");
+	} else {
+		__CPROVER_assert(n->depth < 15, "C10: an inner node is published with its depth set");
+		struct rt_link_node *l = (struct rt_link_node *)n;
+		for (int i = 0; i < 16; i++) {
+			__CPROVER_assert(l->links[i] != RT_WILD, "C10: an inner node is published with every link slot initialised");
+			if (l->links[i] && l->links[i] != RT_WILD) {
+				__CPROVER_assert(l->links[i]->parent == l, "C10: a child is linked to its parent before the parent becomes reachable");
+				publish(l->links[i]);
+			}
+		}
+	}
+}
+static _Bool slot_reachable(void *p)
+{
+	if (p == (void *)&g_t->_root) return 1;
+	for (int i = 0; i < MAXN; i++) if (i < g_npub && __CPROVER_same_object(p, g_pub[i])) return 1;
+	return 0;
+}
+static int fn_is_find(const char *fn) { return fn[0] == 'r' && fn[1] == 't' && fn[2] == '_' && fn[3] == 'f' && fn[4] == 'i' && fn[5] == 'n' && fn[6] == 'd' && fn[7] == 0; }
+void rt_hook_load(void *p, int order, const char *fn)
+{
+	if (!g_hooks_on) return;
+	if (fn_is_find(fn)) __CPROVER_assert(ACQ(order), "C10 order: find() loads _root, link slots and the presence mask with at least acquire");
+}
+void rt_hook_store(void *p, const void *vp, unsigned long size, int order, const char *fn)
+{
+	if (!g_hooks_on) return;
+	if (!slot_reachable(p)) return;                   /* a node still private to the writer: any order */
+	__CPROVER_assert(REL(order), "C10 order: a store into reachable memory (publication of a node or of a value) is at least release");
+	if (size == sizeof(struct rt_node *)) publish(*(struct rt_node *const *)vp);
+	else {                                            /* the presence mask of a reachable leaf */
+		unsigned short nm = *(const unsigned short *)vp; struct rt_entry_node *e = 0;
+		for (int i = 0; i < MAXN; i++) if (i < g_npub && __CPROVER_same_object(p, g_pub[i])) e = (struct rt_entry_node *)g_pub[i];
+		for (int i = 0; i < 16; i++) if ((nm & (1 << i)) && !(e->mask & (1 << i)))
+			__CPROVER_assert(((struct frgv_tracked *)e->entries[i].buffer)->live == 1, "C10: a value is constructed before its presence bit is published");
+	}
+}
+void rt_hook_stored(void *p, int order, const char *fn)
+{
+	if (!g_hooks_on || g_in_reader) return;
+	g_in_reader = 1;                                  /* a reader runs a complete find() for every key of the run, here */
+	for (int i = 0; i < NK; i++) {
+		struct frgv_tracked *f = rt_find(g_t, K[i]);
+		if (pre_present[i] && i != g_cur_key)
+			__CPROVER_assert(f == addr[i] && f->live == 1 && f->v == val[i], "C10: a key present before the operation and not erased by it is found after every single store of the writer");
+		else if (i == g_cur_key)
+			__CPROVER_assert(f == 0 || (f->live == 1 && (pre_present[i] ? (f == addr[i] && f->v == val[i]) : f->v == g_cur_val)), "C10: find() of the key being inserted or erased returns null or a fully constructed value stored under that key");
+		else
+			__CPROVER_assert(f == 0, "C10: find() of an absent key returns null at every point of the writer's operation");
+	}
+	g_in_reader = 0;
+}
+static void c10_begin(struct rt *t, int key, int v) { g_t = t; g_cur_key = key; g_cur_val = v; for (int i = 0; i < NK; i++) pre_present[i] = present[i]; g_hooks_on = 1; }
+static void c10_end(void)
+{
+	g_hooks_on = 0; g_cur_key = -1;
+	for (int i = 0; i < MAXN; i++) if (i < g_npub)
+		__CPROVER_assert(g_pub[i]->prefix == g_pub_prefix[i] && g_pub[i]->depth == g_pub_depth[i], "C10: prefix and depth of a reachable node never change");
+}
+static const int rt_ops[] = RT_OPS;
 static void rt_check(struct rt *t)
 {
 	/* lookups: every key of the run and neighbours of them that are not in the tree (same leaf, same top nibble, complement) */
@@ -83,6 +176,7 @@ void h_rt_ops(void)
 	for (int i = 0; i < NK; i++) { K[i] = keys_[i]; present[i] = 0; addr[i] = 0; }
 	for (int step = 0; step < RT_LEN; step++) {
 		int kind = rt_ops[step] / 10, i = rt_ops[step] % 10; int v = (int)nondet_size_t();
+		c10_begin(&t, i, v);
 		if (kind == 1 && !present[i]) { addr[i] = rt_insert__int_R(&t, K[i], &v); present[i] = 1; val[i] = v;
 			__CPROVER_assert(addr[i] != 0 && addr[i]->live == 1 && addr[i]->v == v, "insert constructs the value"); }
 		else if (kind == 2) { struct rt_ins r = rt_find_or_insert__int_R(&t, K[i], &v);
@@ -97,6 +191,7 @@ void h_rt_ops(void)
 			frgv_tracked_dtor(addr[i]);
 #endif
 		}
+		c10_end();
 		rt_check(&t);
 	}
 	FRGV_CANARY();
